@@ -108,10 +108,92 @@ TEXT["C06"] = {
     "design_ref": "DESIGN.md section 8 C06", "note": _IGEN,
     "technique": "Lean 4 proof (loop invariant over the iterator refinement) + model/implementation correspondence"}
 
+
+_TRUST = ("Trusted: Lean kernel + Mathlib, axioms propext/Classical.choice/Quot.sound, translator, harness, compiled driver.")
+
+TEXT["C07"] = {
+    "text": "Proof (Lean 4), partial: over the model of PrimeSieve::nthPrime / negativeNthPrime with the Riemann-R "
+            "approximations, the bulk count and the generator's block policy as ARBITRARY functions: every n outside "
+            "[-pi(2^64), pi(2^64)] (INT64_MIN included) is rejected before any arithmetic on n, so the only negation is "
+            "performed on values whose negation fits int64; n = 0 is the first prime >= start; negative n without room "
+            "below start is rejected. The value clause (the correction walks return the n-th prime after / before start "
+            "whatever the estimate was) is decided by correspondence: the nth stream runs the real nth_prime (C and C++) "
+            "and the Lean model under two different approximation oracles against an independent oracle, with n and "
+            "start at the limits named in the property (0, +-1, +-max_n, INT64_MIN/MAX, start near 0 and near 2^64).",
+    "design_ref": "DESIGN.md section 8 C07", "note": _IGEN + " RiemannR (long double) is outside the model: its results are inputs.",
+    "technique": "Lean 4 proof of the argument/guard logic for all int64 n + model/implementation correspondence for the walks"}
+TEXT["C08"] = {
+    "text": "Proof (Lean 4): set_sieve_size/setSieveSize and set_num_threads/setNumThreads clamp every int to [16,8192] / "
+            "[1,cores]; get_sieve_size() lies in [16,8192] KiB for EVERY cache description (zero, tiny, huge, garbage "
+            "sizes and sharing counts, the maxSize-1 underflow included); Erat's L1 size is always in [4 KiB, 1 GiB]; the "
+            "segment size is a multiple of 8 or (EratBig) a power of two for every configuration; counts are independent "
+            "of thread count and piece length (both equal the exact count, C04/C05); iterator results are independent of "
+            "block lengths, hints and float values (C03). Tied to src/api.cpp, Erat.cpp, CpuInfo.hpp by the cfg stream "
+            "(set/get sequences, injected cache descriptions, segment geometry for sieve sizes 16..8192 incl. non powers "
+            "of two) and by re-running the segment, count and print streams on a second build without runtime dispatch "
+            "(-DWITH_MULTIARCH=OFF: portable pre-sieve, bit decoding and popcount) next to the AVX512 build. Partial: "
+            "parsing of /sys by CpuInfo::init ('always initialises' on malformed files) is OS/iostream behaviour the "
+            "model cannot exhibit; SIMD paths are tied by differential execution, not by a proof about intrinsics.",
+    "design_ref": "DESIGN.md section 8 C08", "note": _COUNT + " " + _IGEN,
+    "technique": "Lean 4 proof (clamps, cache-topology range, segment geometry, independence corollaries) + correspondence on two build variants"}
+TEXT["C11"] = {
+    "text": "Proof (Lean 4): the C iterator model (inline primesieve_next_prime/prev_prime over generate_*_primes with "
+            "the catch handler of src/iterator-c.cpp) returns on every non-failing call exactly what the C++ iterator "
+            "model returns and leaves the same state; the first failing call yields PRIMESIEVE_ERROR, is_error = 1, "
+            "errno = EDOM and a state from which every further next_prime fails again (sticky, by induction over any "
+            "number of calls, for every block policy and float oracle); jump_to is inclusive and skipto exclusive (via "
+            "C03). The shapes of all 31 extern \"C\" wrappers (try present, catches std::exception, handler sets errno = "
+            "EDOM and returns PRIMESIEVE_ERROR/NULL/error state, errno assigned outside a handler only on the invalid-"
+            "type path) and both 14-entry type-code switches are REGENERATED from the sources on every run and checked by "
+            "decide. Tied to the code by the iterc stream (C iterator histories incl. continued use after an error, errno "
+            "observed before/after), the store stream through primesieve_generate_(n_)primes for all 14 type codes at "
+            "their limits, invalid codes, NULL size pointers, and the nth/print streams' C variants.",
+    "design_ref": "DESIGN.md section 8 C11", "note": _IGEN + " Wrapper facts are textual extraction, not C++ semantics.",
+    "technique": "Lean 4 proof (C iterator simulates C++ iterator, sticky error by induction, regenerated wrapper facts by decide) + correspondence"}
+TEXT["C13"] = {
+    "text": "Proof (Lean 4): for every history of iterator operations in which an arbitrary subset of next_prime / "
+            "prev_prime calls suffers an allocation failure, each call either returns what the abstract cursor returns or "
+            "raises and leaves the cursor where it was (simulation into FaultRun, by induction over the history); calls "
+            "that stay inside the buffer cannot fault; the state after a failure holds no buffer and no generator; the C "
+            "handler turns a failure into the sticky error state. Tie = fault enumeration on the real code: psv_alloc "
+            "replaces operator new, reads each workload's allocation count N from an undisturbed run and then fails "
+            "allocation k for EVERY k in 1..N (quick: up to 80 sampled k per workload; pairs in the fiter stream) for "
+            "iterator forward/backward (C++ and C), count with 1 and 4 threads, twins, generate_(n_)primes (C++ and C), "
+            "nth_prime and print_primes; checked: error reported in the documented way, no wrong value, exact prefix, "
+            "nothing leaked in the ledger, object reusable afterwards.",
+    "design_ref": "DESIGN.md section 8 C13",
+    "note": "The theorem covers the iterator layer; count/generate/nth workloads under faults are decided by the enumeration "
+            "(every allocation index), not by a theorem. malloc/realloc failures inside malloc_vector and std::thread "
+            "creation failures are not injected. " + _TRUST,
+    "technique": "Lean 4 simulation proof under arbitrary fault schedules (iterator) + exhaustive k-th-allocation fault enumeration on the real code"}
+TEXT["C14"] = {
+    "text": "Proof (Lean 4): (1) the inventory of variables with static storage duration that are not const/constexpr is "
+            "regenerated from src/ and include/ on every run and proved (decide) to be exactly {sieve_size, num_threads} "
+            "- a new static/thread_local buffer anywhere breaks the theorem; (2) frame theorem: for every interleaving of "
+            "operations on two iterator models each object returns exactly what it returns alone (induction over the "
+            "schedule). Tied to the code by the multi stream: k >= 2 real iterators (C++ and C) driven in seeded "
+            "interleavings, each object's output compared with its solo run and with the cursor oracle, long enough for "
+            "multi-segment generators and SievingPrimes refills. Partial: data-race freedom of concurrent user threads "
+            "under the C++ memory model is not expressible in the model.",
+    "design_ref": "DESIGN.md section 8 C14", "note": _IGEN + " The globals inventory is a textual scan (translator).",
+    "technique": "Lean 4 frame theorem by induction over schedules + regenerated static-state inventory by decide + interleaving correspondence"}
+TEXT["C17"] = {
+    "text": "Proof (Lean 4), partial: the length of every backward chunk the iterator requests is bounded by "
+            "max(2*sqrt(stop), (MIN_CACHE_ITERATOR/8)*log stop) whatever the previous chunk length was (so it cannot grow "
+            "with the number of primes consumed), forward chunk lengths are within [maxCachedPrime, 2^60], jump_to / "
+            "clear / skipto leave no buffer and no generator, backward refills never keep a generator. Heap bytes are "
+            "outside the model: the mem stream measures peak live operator-new bytes of the real code for interval "
+            "lengths over 2-3 orders of magnitude at fixed magnitude of stop (count 1/4/8 threads, iterator forward / "
+            "backward, C iterator) and checks them against an explicit bound B(sqrt(stop), sieve size, threads, backward "
+            "chunk) and for growth with L; forward buffer <= 1024 primes, <= 2 KiB after clear, 0 after destruction.",
+    "design_ref": "DESIGN.md section 8 C17",
+    "note": "MemoryPool / sieve array / sieving-prime vector bytes are measured, not derived in Lean. " + _TRUST,
+    "technique": "Lean 4 proof of history-independent chunk-length bounds and release bookkeeping + measured heap ledger against an explicit bound"}
+
 NOT_APPLICABLE = [
     {"property_id": "C18",
      "reason": "|R(x)-pi(x)| < sqrt(x) on [2,2^64) is an RH-strength statement about pi(x) evaluated in x87 long double; "
                "Lean/Mathlib can neither state the float semantics nor prove the bound; see DESIGN.md section 8 C18"},
 ]
-for _p in [x for x in ["C04", "C05", "C06", "C07", "C08", "C09", "C10", "C11", "C12", "C13", "C14", "C15", "C16", "C17"] if x not in TEXT]:
+for _p in [x for x in ["C12", "C16"] if x not in TEXT]:
     NOT_APPLICABLE.append({"property_id": _p, "reason": "not claimed yet: model/theorems under construction (will be claimed once its check exists)"})
